@@ -31,6 +31,9 @@ func And(a, b bool) bool
 func Or(a, b bool) bool
 func Implies(a, b bool) bool
 func Ite64(c bool, a, b uint64) uint64
+func SameExpr(a, b uint64) bool
+func StubReturn64(fn string, v uint64)
+func StubClear()
 
 // lock introspection
 func MutexHeld(m *sync.Mutex) bool
